@@ -239,6 +239,7 @@ func ruleC19Codec(c *ctx.Ctx, r *core.Reporter) {
 		} else {
 			r.Violation("minify:copies-hint-verbatim", c.Pos(rw.Pos()), "removeWhitespace has no arm for the hint magic: payload bytes would be treated as code")
 		}
+		checkPreviousIsCodeByte(c, r, rw)
 	}
 }
 
